@@ -533,6 +533,17 @@ func (fx *FnCtx) appendOp(st *State, cc *ssa.CallCommon, args []*Val, ct types.T
 	isNilRes := tAnd(tEq(s.B, "0"), tEq(eL, "0"))
 	rB = tIte(isNilRes, "0", rB)
 	rC = tIte(isNilRes, "0", rC)
+	// name the composite results so that later terms (and quantifier patterns) stay free of ite
+	name := func(hint, t string) string {
+		if _, isN := isNum(t); isN || !strings.HasPrefix(t, "(") {
+			return t
+		}
+		c := fx.fresh(hint, "Int")
+		sol.Assert(tEq(c, t))
+		return c
+	}
+	rB, rO, rC = name("appB", rB), name("appO", rO), name("appC", rC)
+	newLen = name("appL", newLen)
 	// frame: in-place writes touch s's backing array
 	if fx.con != nil && fx.con.HasFrame {
 		fx.sol.Push()
@@ -563,7 +574,9 @@ func (fx *FnCtx) appendOp(st *State, cc *ssa.CallCommon, args []*Val, ct types.T
 			tSel(srcRow, tAdd(eO, tSub(i, tAdd(rO, s.L)))),
 			tIte(fits, tSel(oldRow, i), tIte(tAnd(tCmp("<=", "0", i), tCmp("<", i, s.L)), tSel(oldRow, tAdd(s.O, i)), z)))
 		sol.Assert("(forall ((i Int)) (! (= (select " + nr + " i) " + body + ") :pattern ((select " + nr + " i))))")
-		st.heapSet(key, sort, tIte(isNilRes, m, tSto(m, rB, nr)))
+		nm := fx.fresh("mem", sort)
+		sol.Assert(tEq(nm, tIte(isNilRes, m, tSto(m, rB, nr))))
+		st.heapSet(key, sort, nm)
 	}
 	return &Val{K: KSlice, T: ct, B: rB, O: rO, L: newLen, C: rC}
 }
